@@ -194,3 +194,48 @@ def proxy_reply_bytes(r, world):
     if isinstance(r, (bytes, bytearray)):
         return bytes(r)
     return bytes(r)
+
+
+def proxy_reads(spec):
+    """Expand an abstract proxy answer {cls, cut} into the list of recv() results and the length of the complete answer."""
+    cls, cut = spec['cls'], spec.get('cut', 'one')
+    tail = []
+    complete = True
+    if cls == 'ok200':
+        data = b'HTTP/1.1 200 Connection established\r\n\r\n'
+    elif cls == 'ok200_headers':
+        data = b'HTTP/1.1 200 OK\r\nProxy-Agent: sim/1.0\r\nVia: 1.1 sim\r\nX-Fold: a\r\n b\r\n\r\n'
+    elif cls == 'st407':
+        data = b'HTTP/1.1 407 Proxy Authentication Required\r\nProxy-Authenticate: Basic realm="sim"\r\n\r\n'
+    elif cls == 'st500':
+        data = b'HTTP/1.1 500 Internal Server Error\r\n\r\n'
+    elif cls == 'st201':
+        data = b'HTTP/1.1 201 Created\r\n\r\n'
+    elif cls == 'garbage':
+        data = b'\x00\x01\x02 not http at all\r\n\r\n'
+    elif cls == 'unterminated_eof':
+        data, tail, complete = b'HTTP/1.1 200 OK\r\nX-Header: value', ['eof'], False
+    elif cls == 'oversize':
+        data = b'HTTP/1.1 200 OK\r\nX-Pad: ' + b'p' * 17000 + b'\r\n\r\n'
+    elif cls == 'oversize_unterminated':
+        data, tail, complete = b'HTTP/1.1 200 OK\r\nX-Pad: ' + b'p' * 17000, ['eof'], False
+    elif cls == 'immediate_eof':
+        data, tail, complete = b'', ['eof'], False
+    elif cls == 'recv_error':
+        data, tail, complete = b'', ['error'], False
+    elif cls == 'recv_boom':
+        data, tail, complete = b'', ['boom'], False
+    elif cls == 'partial_then_error':
+        data, tail, complete = b'HTTP/1.1 200', ['error'], False
+    else:
+        raise ValueError(cls)
+    if not data:
+        chunks = []
+    elif cut == 'bytewise' and len(data) < 400:
+        chunks = [data[i:i + 1] for i in range(len(data))]
+    elif cut == 'two' or cut == 'bytewise':
+        h = max(1, len(data) // 2)
+        chunks = [data[:h], data[h:]] if len(data) > 1 else [data]
+    else:
+        chunks = [data]
+    return [{"b": list(c)} for c in chunks] + tail, (len(data) if complete else 0)
